@@ -184,6 +184,97 @@ def new_statements(changed):
     return out
 
 
+
+# ---- value level: comparisons inside new statements whose result is used as a VALUE (no jump) ------
+class _WrapCompare(ast.NodeTransformer):
+    """wrap every comparison and every `not` that starts inside one of the given line spans in a call of the
+    recorder builtin `__verif_cmp__(site, value)` (returns value unchanged); locations are preserved"""
+
+    def __init__(self, spans, first_site=0):
+        self.spans = spans
+        self.sites = []  # (lineno, col, source-dump)
+        self.first = first_site
+
+    def _in(self, node):
+        return any(lo <= node.lineno <= hi for lo, hi in self.spans)
+
+    def _wrap(self, node):
+        k = self.first + len(self.sites)
+        self.sites.append((node.lineno, node.col_offset, ast.unparse(node)[:120]))
+        call = ast.Call(func=ast.Name(id="__verif_cmp__", ctx=ast.Load()), args=[ast.Constant(value=k), node], keywords=[])
+        ast.copy_location(call, node)
+        ast.copy_location(call.func, node)
+        ast.copy_location(call.args[0], node)
+        return call
+
+    def visit_Compare(self, node):
+        self.generic_visit(node)
+        return self._wrap(node) if self._in(node) else node
+
+    def visit_UnaryOp(self, node):
+        self.generic_visit(node)
+        return self._wrap(node) if isinstance(node.op, ast.Not) and self._in(node) else node
+
+
+def _module_of(path):
+    rel = os.path.relpath(path, os.path.realpath(repo_root()))
+    if rel.startswith("..") or not rel.endswith(".py"):
+        return None
+    return rel[:-3].replace(os.sep, ".")
+
+
+def _live_functions(module, qualname):
+    """function objects (unwrapped) that the qualified name denotes in the imported module"""
+    import inspect
+    import types
+    obj = module
+    parts = qualname.split(".")
+    try:
+        for p_ in parts[:-1]:
+            obj = inspect.getattr_static(obj, p_)
+        name = parts[-1]
+        d = getattr(obj, "__dict__", {})
+        raw = d.get(name)
+        if raw is None and name.startswith("__") and not name.endswith("__") and isinstance(obj, type):
+            raw = d.get("_" + obj.__name__.lstrip("_") + name)
+        if raw is None:
+            return []
+    except Exception:
+        return []
+    cands = []
+    if isinstance(raw, (staticmethod, classmethod)):
+        cands.append(raw.__func__)
+    elif isinstance(raw, property):
+        cands += [f for f in (raw.fget, raw.fset, raw.fdel) if f is not None]
+    else:
+        cands.append(raw)
+    out = []
+    for f in cands:
+        seen = 0
+        while not isinstance(f, types.FunctionType) and hasattr(f, "__wrapped__") and seen < 8:
+            f = f.__wrapped__
+            seen += 1
+        if isinstance(f, types.FunctionType):
+            out.append(f)
+    return out
+
+
+def _jump_keys(code):
+    """{offset: key} for the conditional jumps of a code object; the key is made of source positions, so that it
+    is the same in the plain and in the instrumented compilation of the same source"""
+    import dis
+    keys = {}
+    count = {}
+    for ins in dis.get_instructions(code):
+        if ins.opname in Coverage._COND:
+            p_ = ins.positions
+            base = (p_.lineno, p_.col_offset, p_.end_lineno, p_.end_col_offset, ins.opname) if p_ else (None, None, None, None, ins.opname)
+            n = count.get(base, 0)
+            count[base] = n + 1
+            keys[ins.offset] = ":".join(str(x) for x in base + (n,))
+    return keys
+
+
 class Coverage:
     """Which of the given statements were executed at least once by this process or by processes
     forked from it (sys.monitoring LINE events, each location reported once: negligible overhead).
@@ -214,12 +305,19 @@ class Coverage:
         armed = set()
         seen_br = set()
 
+        jkeys = {}
+
         def on_branch(code, src, dst):
             k = (id(code), src, dst)
             if k not in seen_br:
                 seen_br.add(k)
                 try:
-                    os.write(fd, f"B|{os.path.realpath(code.co_filename)}|{code.co_qualname}|{code.co_firstlineno}|{src}|{dst}\n".encode())
+                    jk = jkeys.get(id(code))
+                    if jk is None:
+                        jk = jkeys[id(code)] = (code, _jump_keys(code))  # the code object is kept alive: ids stay unique
+                    key = jk[1].get(src)
+                    if key is not None:
+                        os.write(fd, f"B|{os.path.realpath(code.co_filename)}|{code.co_qualname}|{code.co_firstlineno}|{key}|{dst}\n".encode())
                 except OSError:
                     pass
 
@@ -247,6 +345,74 @@ class Coverage:
         mon.register_callback(self.TOOL, mon.events.BRANCH, on_branch)
         mon.set_events(self.TOOL, mon.events.LINE)
         self.active = True
+        try:
+            self._instrument(fd)
+        except Exception as e:  # value-level recording is an extra: never let it break a run
+            self.sites = {}
+            self.instrument_note = f"comparison recorder not installed: {type(e).__name__}: {e}"
+
+    def _instrument(self, fd):
+        """swap the code of the changed functions for a compilation in which every comparison inside a new
+        statement reports its outcome (asserts excepted)"""
+        import builtins
+        import importlib
+        import sys
+        self.sites = {}
+        seen = set()
+
+        def rec(k, v):
+            o = 1 if v is True else 0 if v is False else 2
+            if (k, o) not in seen:
+                seen.add((k, o))
+                try:
+                    os.write(fd, f"C|{k}|{o}\n".encode())
+                except OSError:
+                    pass
+            return v
+
+        builtins.__verif_cmp__ = rec
+        by_path = {}
+        for s_ in self.stmts:
+            if s_.get("kind") != "Assert":
+                by_path.setdefault(s_["path"], []).append(s_)
+        for path, sts in by_path.items():
+            modname = _module_of(path)
+            if not modname:
+                continue
+            try:
+                module = sys.modules.get(modname) or importlib.import_module(modname)
+                tree = ast.parse(open(path, encoding="utf-8").read())
+            except Exception:
+                continue
+            if os.path.realpath(getattr(module, "__file__", "") or "") != path:
+                continue
+            w = _WrapCompare([(s_["line"], s_["end"]) for s_ in sts], first_site=len(self.sites))
+            tree = ast.fix_missing_locations(w.visit(tree))
+            if not w.sites:
+                continue
+            top = compile(tree, path, "exec")
+            codes = {}
+            stack = [top]
+            while stack:
+                c = stack.pop()
+                stack.extend(x for x in c.co_consts if hasattr(x, "co_code"))
+                codes.setdefault((c.co_qualname, c.co_firstlineno), c)
+            swapped = set()
+            for q in sorted({s_["qualname"] for s_ in sts}):
+                for fn in _live_functions(module, q):
+                    old = fn.__code__
+                    newc = codes.get((old.co_qualname, old.co_firstlineno))
+                    if newc is None or newc.co_freevars != old.co_freevars or newc.co_argcount != old.co_argcount \
+                            or os.path.realpath(old.co_filename) != path:
+                        continue
+                    fn.__code__ = newc
+                    swapped.add((newc.co_firstlineno, max((l for _, _, l in newc.co_lines() if l), default=newc.co_firstlineno)))
+            for i, (ln, col, text) in enumerate(w.sites):
+                st = next((s_ for s_ in sts if s_["line"] <= ln <= s_["end"]), None)
+                inside = any(lo <= ln <= hi for lo, hi in swapped)
+                if st is not None and inside:
+                    self.sites[w.first + i] = {"file": st["file"], "path": path, "qualname": st["qualname"], "line": ln,
+                                               "src": st["src"], "expr": text}
 
     def stop(self):
         import sys
@@ -267,7 +433,7 @@ class Coverage:
             return None
         hit = {}
         for l in open(self.log):
-            if l.startswith("B|"):
+            if l.startswith(("B|", "C|")):
                 continue
             f, _, n = l.strip().rpartition(":")
             if n.isdigit():
@@ -283,11 +449,15 @@ class Coverage:
         if not self.stmts or not os.path.exists(self.log):
             return []
         seen = {}
+        values = {}
         lines_hit = {}
         for l in open(self.log):
             if l.startswith("B|"):
                 _, path, qual, first, src, dst = l.rstrip("\n").split("|")
-                seen.setdefault((path, qual, int(first), int(src)), set()).add(int(dst))
+                seen.setdefault((path, qual, int(first), src), set()).add(int(dst))
+            elif l.startswith("C|"):
+                _, k, o = l.rstrip("\n").split("|")
+                values.setdefault(int(k), set()).add(int(o))
             else:
                 f, _, n = l.strip().rpartition(":")
                 if n.isdigit():
@@ -306,6 +476,7 @@ class Coverage:
             while stack:
                 code = stack.pop()
                 stack.extend(c for c in code.co_consts if hasattr(c, "co_code"))
+                jk = _jump_keys(code)
                 for ins in dis.get_instructions(code):
                     if ins.opname not in self._COND:
                         continue
@@ -315,10 +486,16 @@ class Coverage:
                         continue
                     if not (lines_hit.get(path, set()) & set(range(st["line"], st["end"] + 1))):
                         continue  # statement never executed: already reported as such
-                    obs = seen.get((path, code.co_qualname, code.co_firstlineno, ins.offset), set())
+                    obs = seen.get((path, code.co_qualname, code.co_firstlineno, jk.get(ins.offset)), set())
                     if len(obs) < 2:
                         out.append({"file": st["file"], "path": path, "qualname": st["qualname"], "line": ln,
                                     "src": st["src"], "observed": len(obs), "opname": ins.opname})
+        # comparisons used as values: evaluated, always a plain bool, and always the same one
+        for k, site in getattr(self, "sites", {}).items():
+            obs = values.get(k, set())
+            if obs and 2 not in obs and len(obs) < 2:
+                out.append(dict(site, observed=len(obs), opname="COMPARE (value)",
+                                src=f"{site['src']}   [comparison `{site['expr']}` was always {bool(next(iter(obs)))}]"))
         # one entry per (line, qualname)
         uniq = {}
         for o in out:
@@ -378,6 +555,18 @@ def drift(prop_id, extra=()):
             if q not in hs:
                 changed.append(f"{f}::{q} (removed)")
     return changed
+
+
+def drift_any():
+    """does ANY library source under okdmr/dmrlib differ from the committed baseline? (used only to tell a harness
+    defect from a harness that was handed changed code, see check.py)"""
+    try:
+        base = json.load(open(BASE))
+    except FileNotFoundError:
+        return False
+    base = {k: v for k, v in base.items() if not k.startswith("__")}
+    cur = {f: h for f, h in snapshot(["okdmr/dmrlib"]).items() if "/tests/" not in f}
+    return cur != base
 
 
 if __name__ == "__main__":
